@@ -68,6 +68,7 @@ type Store struct {
 	open      []*txHandle // transactions begun and not finished
 	writer    *txHandle   // the one that holds the write lock (has written)
 	lastRowid int64
+	dbRows    []*rowsHandle // cursors opened through the DB handle (pool connections)
 	txOpen    bool
 	txSeq     int
 	log       []string
@@ -400,6 +401,12 @@ func (e *sqlEnv) eval(x *sqlExpr) Value {
 			}
 		}
 		return e.eval(x.args[n-1])
+	case "exists":
+		rs := in.runSelect(e.layer, x.sub, e.params, e)
+		if len(rs.rows) > 0 {
+			return in.F.Int(1)
+		}
+		return in.F.Int(0)
 	case "subq":
 		rs := in.runSelect(e.layer, x.sub, e.params, e)
 		if len(rs.rows) == 0 {
@@ -1025,6 +1032,22 @@ func (in *Interp) sqlExecStmt(st *Store, layer *storeLayer, stmt *sqlStmt, param
 }
 
 var _ = types.Typ
+
+// sharedLockHeldByOthers: does a connection other than tx's hold a SHARED lock that will not go
+// away by itself (an unfinished transaction that has read, or an open cursor on the DB handle)?
+func (st *Store) sharedLockHeldByOthers(tx *txHandle) string {
+	for _, o := range st.open {
+		if o != tx && !o.done && o.hasRead {
+			return "read transaction left open"
+		}
+	}
+	for _, rh := range st.dbRows {
+		if !rh.closed {
+			return "cursor left open @ " + rh.site + ": " + rh.text
+		}
+	}
+	return ""
+}
 
 func (st *Store) finish(tx *txHandle) {
 	tx.done = true
